@@ -1,3 +1,4 @@
 import Hive
 import Audit.C11
 import Audit.C20
+import Audit.C15
